@@ -1,7 +1,133 @@
-import LitexModel.Fhdl.Print
+import LitexProofs.Fhdl.StaticSound
+/-
+  C01 — generated Verilog behaves exactly like the simulated FHDL design.
+
+  Layer 1 (expressions and assignments of expressions).  Objects:
+    `evalF ρ e`            the reference simulator (`Evaluator.eval`, unbounded Python integers)
+    `printE e`             the printer of `litex/gen/fhdl/expression.py` (model checked node by node against the
+                           real text on every run)
+    `evalV ρ W sg v`       IEEE 1364-2005 §5.4/§5.5 evaluation of the printed text in a `W`-bit context
+                           (TRUSTED formalisation; the sandbox has no Verilog simulator)
+    `storeF/assignV`      bits stored into an `lw`-bit target by `Evaluator.assign` / by the Verilog assignment
+  The property at full strength is FALSE on the code that exists: Migen evaluates over unbounded integers,
+  Verilog in the context width, and the printer mis-reports signedness in three places.  It is therefore proved
+  under the decidable side condition `Fits` (`_partial`), the excluded region is exhibited by concrete
+  counterexamples, and a static sufficient condition (`staticallyFits`, a value-range analysis) is proved sound.
+-/
 namespace Litex.C01
 
-theorem placeholder_selfWidth_lit (w v : Nat) (s : Bool) : selfWidth (.lit w s v) = w := by
-  simp [selfWidth]
+/-
+  Full statement (does NOT hold, see the negative witnesses below):
+  theorem printE_correct (ρ : Env) (e : Expr) (W : Nat) (hρ : envOk ρ e = true)
+      (hW : selfWidth (printE e).1 ≤ W) :
+      evalV ρ W (selfSigned (printE e).1) (printE e).1 = tn W (evalF ρ e)
+-/
+
+/-- **Printer theorem.**  For every FHDL expression `e`, every valuation `ρ` and every context width
+    `W ≥ selfWidth(text)`: if `Fits ρ e W` (at each self-determined boundary of the printed text — comparison
+    operands, shift amounts and right-shift operands, concatenation/replication elements, conditions, promoted
+    `$signed({1'd0, x})` operands — the unbounded value is representable in the width/type Verilog gives it)
+    then the printed text evaluates, under the Verilog rules, to the simulator's value modulo `2^W`. -/
+theorem printE_correct_partial (ρ : Env) (e : Expr) (W : Nat)
+    (hW : selfWidth (printE e).1 ≤ W) (h : Fits ρ e W = true) :
+    evalV ρ W (selfSigned (printE e).1) (printE e).1 = tn W (evalF ρ e) := by
+  simp only [Fits, Bool.and_eq_true] at h
+  rw [evalV_ideal ρ _ W _ hW h.2, printE_ideal ρ e h.1]
+
+/-- **Assignment theorem.**  `target.eq(e)` stores the same bits in the simulator and in the generated
+    Verilog (`target <= text;` / `assign target = text;`), for a target of any width `lw`. -/
+theorem assign_correct_partial (ρ : Env) (e : Expr) (lw : Nat)
+    (h : Fits ρ e (max lw (selfWidth (printE e).1)) = true) :
+    assignV ρ lw (printE e).1 = storeF ρ lw e := by
+  unfold assignV storeF
+  rw [printE_correct_partial ρ e _ (Nat.le_max_right _ _) h, tn_tn (Nat.le_max_left _ _)]
+
+/-- **Verilog sizing theorem** (about the Verilog semantics alone): context-determined evaluation equals the
+    exact integer value modulo `2^W` whenever no self-determined boundary loses information. -/
+theorem evalV_eq_ideal_partial (ρ : Nat → Int) (v : VExpr) (W : Nat) (sg : Bool)
+    (hW : selfWidth v ≤ W) (h : fitsV ρ v W sg = true) : evalV ρ W sg v = tn W (ideal ρ v) :=
+  evalV_ideal ρ v W sg hW h
+
+/-- **Printed text denotes the simulator's value** over unbounded integers (printer side condition only). -/
+theorem printE_ideal_partial (ρ : Env) (e : Expr) (h : fitsP ρ e = true) :
+    ideal ρ (printE e).1 = evalF ρ e :=
+  printE_ideal ρ e h
+
+/-- The value-range analysis is sound: the unbounded value of a Verilog expression lies within `bounds`. -/
+theorem bounds_contains (ρ : Nat → Int) (v : VExpr) : (bounds v).1 ≤ ideal ρ v ∧ ideal ρ v ≤ (bounds v).2 :=
+  bounds_sound ρ v
+
+/-- **Soundness of the static classifier**: a statically fitting expression fits under every valuation whose
+    signal values are in their declared ranges. -/
+theorem staticallyFits_sound (e : Expr) (W : Nat) (h : staticallyFits e W = true) :
+    ∀ ρ : Env, envOk ρ e = true → Fits ρ e W = true := by
+  intro ρ hρ
+  simp only [staticallyFits, Bool.and_eq_true] at h
+  simp only [Fits, Bool.and_eq_true]
+  exact ⟨sfitsP_sound ρ e h.1 hρ, sfitsV_sound ρ _ _ _ h.2⟩
+
+/-- Statically fitting assignments are translated correctly for ALL inputs. -/
+theorem assign_correct_static (e : Expr) (lw : Nat)
+    (h : staticallyFits e (max lw (selfWidth (printE e).1)) = true) :
+    ∀ ρ : Env, envOk ρ e = true → assignV ρ lw (printE e).1 = storeF ρ lw e :=
+  fun ρ hρ => assign_correct_partial ρ e lw (staticallyFits_sound e _ h ρ hρ)
+
+/-! ### Non-vacuity -/
+
+def envL (l : List Int) : Env := fun i => l.getD i 0
+
+/-- `y[8] = (a & ~b) + (c >> 1)` with a,b,c 8-bit unsigned fits statically (so for all inputs). -/
+example : staticallyFits
+    (.op2 .add (.op2 .and (.sig 0 8 false) (.op1 .not (.sig 1 8 false))) (.op2 .shr (.sig 2 8 false) (.const 1 1 false))) 8
+    = true := by decide
+
+/-- a signed/unsigned mix that needs the `$signed({1'd0, x})` promotion fits statically. -/
+example : staticallyFits (.op2 .lt (.sig 0 8 true) (.sig 1 4 false)) 1 = true := by decide
+
+example : printE (.op2 .lt (.sig 0 8 true) (.sig 1 4 false)) =
+    (.bin .lt (.id 0 8 true) (.signed (.concat [.lit 1 false 0, .id 1 4 false])), true) := rfl
+
+/-! ### Negative witnesses (the excluded region is not empty: the full statement fails there) -/
+
+/-- `(a - 1) == b`, a = 0, b = 0xFF, 8 bits: simulator 0 (−1 ≠ 255), Verilog 1 (8'hFF == 8'hFF). -/
+example :
+    let e : Expr := .op2 .eq (.op2 .sub (.sig 0 8 false) (.const 1 1 false)) (.sig 1 8 false)
+    let ρ := envL [0, 255]
+    envOk ρ e = true ∧ storeF ρ 1 e = 0 ∧ assignV ρ 1 (printE e).1 = 1 ∧ Fits ρ e 1 = false := by decide
+
+/-- `~a == k` with a = 0, k = 0xFF: simulator 0 (−1 ≠ 255), Verilog 1. -/
+example :
+    let e : Expr := .op2 .eq (.op1 .not (.sig 0 8 false)) (.const 255 8 false)
+    let ρ := envL [0]
+    envOk ρ e = true ∧ storeF ρ 1 e = 0 ∧ assignV ρ 1 (printE e).1 = 1 ∧ Fits ρ e 1 = false := by decide
+
+/-- `(a + b) >> 1` assigned to 8 bits, a = b = 0x80: simulator 0x80, Verilog 0 (carry lost before the shift). -/
+example :
+    let e : Expr := .op2 .shr (.op2 .add (.sig 0 8 false) (.sig 1 8 false)) (.const 1 1 false)
+    let ρ := envL [128, 128]
+    envOk ρ e = true ∧ storeF ρ 8 e = 128 ∧ assignV ρ 8 (printE e).1 = 0 ∧ Fits ρ e 8 = false := by decide
+
+/-- KNOWN DEFECT (F6): signed constants are printed without `s`.  `a < -1` with `a` 8-bit signed, a = 5:
+    the text is `(a < -1'd1)`, an UNSIGNED comparison in Verilog (5 < 255 = 1); the simulator gives 0. -/
+example :
+    let e : Expr := .op2 .lt (.sig 0 8 true) (.const (-1) 1 true)
+    let ρ := envL [5]
+    envOk ρ e = true ∧ storeF ρ 1 e = 0 ∧ assignV ρ 1 (printE e).1 = 1 ∧ Fits ρ e 1 = false := by decide
+
+example : (printE (.op2 .lt (.sig 0 8 true) (.const (-1) 1 true))).1 =
+    .bin .lt (.id 0 8 true) (.un .neg (.lit 1 false 1)) := rfl
+
+/-- Printer sign flag of a comparison (`s1 or s2`) is wrong (Verilog: unsigned): `(a < b) + c`, all signed
+    8 bit, into 16 bits with c = −1, a ≥ b: simulator 0xFFFF, Verilog 0x00FF (c is zero-extended). -/
+example :
+    let e : Expr := .op2 .add (.op2 .lt (.sig 0 8 true) (.sig 1 8 true)) (.sig 2 8 true)
+    let ρ := envL [0, 0, -1]
+    envOk ρ e = true ∧ storeF ρ 16 e = 65535 ∧ assignV ρ 16 (printE e).1 = 255 ∧ Fits ρ e 16 = false := by decide
+
+/-- `Mux(~b, x, y)`: the simulator tests the unbounded `~b ∈ {−1, −2}` (always true), Verilog the 1-bit `~b`. -/
+example :
+    let e : Expr := .mux (.op1 .not (.sig 0 1 false)) (.sig 1 4 false) (.sig 2 4 false)
+    let ρ := envL [1, 3, 9]
+    envOk ρ e = true ∧ storeF ρ 4 e = 3 ∧ assignV ρ 4 (printE e).1 = 9 ∧ Fits ρ e 4 = false := by decide
 
 end Litex.C01
